@@ -835,7 +835,9 @@ func rulePooledMemoryNotReturned(c *Check, rule string, progs []*Prog) {
 				}
 				for i := range ret.Results {
 					t := TermOf(spilledResult(ret, i), ctx)
-					if t.Contains(func(x *Term) bool { return (x.Op == "call" || x.Op == "invoke") && strings.HasSuffix(x.Name, "sync.Pool).Get") }) {
+					if t.Contains(func(x *Term) bool {
+						return (x.Op == "call" || x.Op == "invoke") && strings.HasSuffix(x.Name, "sync.Pool).Get")
+					}) {
 						bad = p.InstrPos(ret) + ": " + trunc(t.String(), 90)
 					}
 				}
